@@ -475,9 +475,11 @@ func (g *pgen) genStage(i int) *Stage {
 	if g.cfg.Decorate {
 		if rapid.IntRange(0, 2).Draw(t, "resources") == 0 {
 			r := &Resources{}
-			r.MemGB = rapid.SampledFrom([]string{"", "1", "2", "0.05", "1.5", "-4", "3e0", "0.125"}).Draw(t, "mem")
-			r.Threads = rapid.SampledFrom([]string{"", "1", "2", "0.5", "0.01", "-1", "1.5"}).Draw(t, "threads")
-			r.VMemGB = rapid.SampledFrom([]string{"", "", "8", "16.5"}).Draw(t, "vmem")
+			// (negative requests are "adaptive"; values between -1 and 0,
+			// and whole and fractional values on either side of zero)
+			r.MemGB = rapid.SampledFrom([]string{"", "1", "2", "0.05", "1.5", "-4", "3e0", "0.125", "-0.5", "-0.25", "-1.5", "-1", "0"}).Draw(t, "mem")
+			r.Threads = rapid.SampledFrom([]string{"", "1", "2", "0.5", "0.01", "-1", "1.5", "-0.5", "0"}).Draw(t, "threads")
+			r.VMemGB = rapid.SampledFrom([]string{"", "", "8", "16.5", "-0.75", "-2", "0.5"}).Draw(t, "vmem")
 			r.Special = rapid.SampledFrom([]string{"", "", "highmem", "a b", "q\"x", "esc\\n"}).Draw(t, "special")
 			r.Volatile = rapid.SampledFrom([]string{"", "", "strict", "false"}).Draw(t, "volatile")
 			if *r != (Resources{}) {
